@@ -321,6 +321,69 @@ func buildAttacks(r *spec.Rand, n int) []attack {
 			})
 		}
 	}
+	// ---- a client identifier with a large stored session whose live connection keeps changing its
+	// subscriptions while further connections with the same identifier come (resuming the session) and
+	// are cut: set-up and teardown of those walk the session's filter list while the live connection
+	// changes it
+	for i := 0; i < 2; i++ {
+		add("disc/same-id-churn", "connections resuming a session of 2000 filters are cut while the live connection of that client subscribes and unsubscribes", func(b *brokerProc, r *spec.Rand) map[string]interface{} {
+			id := uniqueCID("dev")
+			live, err := b.connect(id, connectOpts{ClientID: id, Clean: false, KeepAlive: 600})
+			if err != nil {
+				return map[string]interface{}{"connect": err.Error()}
+			}
+			defer live.Close()
+			var pid idGen
+			req := func(ty byte, base, n int) *rc.Packet {
+				p := &rc.Packet{Type: ty, ID: pid.next()}
+				for k := 0; k < n; k++ {
+					p.Filters = append(p.Filters, []byte(fmt.Sprintf("atk/dev/%d/%d", base, k)))
+					if ty == rc.SUBSCRIBE {
+						p.QoSs = append(p.QoSs, byte(k%3))
+					}
+				}
+				return p
+			}
+			for g := 0; g < 20; g++ {
+				live.SendPacket(req(rc.SUBSCRIBE, g, 100))
+			}
+			live.WaitFor(func(l []rawclient.Event, closed bool) bool { return closed || countType(l, rc.SUBACK) >= 20 }, 10*time.Second)
+			stop := make(chan struct{})
+			done := make(chan struct{})
+			go func() {
+				defer close(done)
+				for k := 0; ; k++ {
+					select {
+					case <-stop:
+						return
+					default:
+					}
+					live.SendPacket(req(rc.SUBSCRIBE, 1000+k%3, 100))
+					live.SendPacket(req(rc.UNSUBSCRIBE, 1000+k%3, 100))
+					want := k + 1
+					live.WaitFor(func(l []rawclient.Event, closed bool) bool { return closed || countType(l, rc.UNSUBACK) >= want }, 5*time.Second)
+				}
+			}()
+			cuts := 0
+			for k := 0; k < 60 && b.alive(); k++ {
+				c, err := b.dial("dev-again", nil)
+				if err != nil {
+					break
+				}
+				c.SendPacket(connectPacket(connectOpts{ClientID: id, Clean: false, KeepAlive: 600}))
+				if r.Intn(3) > 0 {
+					c.WaitFor(func(l []rawclient.Event, closed bool) bool { return closed || len(l) > 0 }, 5*time.Second)
+				} else {
+					c.Flush()
+				}
+				c.Close()
+				cuts++
+			}
+			close(stop)
+			<-done
+			return map[string]interface{}{"same_id_connections_cut": cuts}
+		})
+	}
 	// ---- disconnects: close at every byte offset of a packet
 	sub := rc.Encode(&rc.Packet{Type: rc.SUBSCRIBE, ID: 5, Filters: [][]byte{[]byte("atk/x/#"), []byte("atk/y")}, QoSs: []byte{1, 2}})
 	pub := rc.Encode(&rc.Packet{Type: rc.PUBLISH, QoS: 2, ID: 6, Topic: []byte("atk/x/1"), Payload: spec.MakePayload(1, 0, 40)})
